@@ -154,6 +154,53 @@ impl query::QueryDispatcher for RecDispatcher {
     }
     fn cast_shapes_nonlinear(&self, _: &NonlinearRigidMotion, _: &dyn Shape, _: &NonlinearRigidMotion, _: &dyn Shape, _: f64, _: f64, _: bool) -> Result<Option<ShapeCastHit>, query::Unsupported> { Err(query::Unsupported) }
 }
+/// answers the k-th part cast with the k-th entry of a script (`None` beyond its end); the hit carries `k` in `witness2.x`
+struct ScriptDispatcher { script: Vec<Option<f64>>, calls: std::sync::Mutex<usize> }
+impl query::QueryDispatcher for ScriptDispatcher {
+    fn intersection_test(&self, _: &Iso, _: &dyn Shape, _: &dyn Shape) -> Result<bool, query::Unsupported> { Err(query::Unsupported) }
+    fn distance(&self, _: &Iso, _: &dyn Shape, _: &dyn Shape) -> Result<f64, query::Unsupported> { Err(query::Unsupported) }
+    fn contact(&self, _: &Iso, _: &dyn Shape, _: &dyn Shape, _: f64) -> Result<Option<query::Contact>, query::Unsupported> { Err(query::Unsupported) }
+    fn closest_points(&self, _: &Iso, _: &dyn Shape, _: &dyn Shape, _: f64) -> Result<query::ClosestPoints, query::Unsupported> { Err(query::Unsupported) }
+    fn cast_shapes(&self, _: &Iso, _: &V, _: &dyn Shape, _: &dyn Shape, _: ShapeCastOptions) -> Result<Option<ShapeCastHit>, query::Unsupported> {
+        let mut c = self.calls.lock().unwrap();
+        let k = *c; *c += 1;
+        Ok(self.script.get(k).cloned().flatten().map(|t| {
+            let mut w2 = P::origin(); w2[0] = k as f64;
+            ShapeCastHit { time_of_impact: t, witness1: P::origin(), witness2: w2, normal1: V::x_axis(), normal2: V::x_axis(), status: ShapeCastStatus::Converged }
+        }))
+    }
+    fn cast_shapes_nonlinear(&self, _: &NonlinearRigidMotion, _: &dyn Shape, _: &NonlinearRigidMotion, _: &dyn Shape, _: f64, _: f64, _: bool) -> Result<Option<ShapeCastHit>, query::Unsupported> { Err(query::Unsupported) }
+}
+/// `ns (0 | 1 toi)*ns`
+fn parse_script(a: &mut Args) -> Vec<Option<f64>> {
+    let n = a.u();
+    (0..n).map(|_| if a.u() == 0 { None } else { Some(a.f()) }).collect()
+}
+/// the result of a height-field cast run with a `ScriptDispatcher`: `none calls` | `some toi k calls`
+fn fmt_script_result(r: Result<Option<ShapeCastHit>, query::Unsupported>, d: &ScriptDispatcher) -> String {
+    let calls = *d.calls.lock().unwrap();
+    match r {
+        Err(_) => "unsupported".into(),
+        Ok(None) => format!("none {}", calls),
+        Ok(Some(h)) => format!("some {} {} {}", ff(h.time_of_impact), h.witness2[0] as usize, calls),
+    }
+}
+/// script for `calls`-ish part casts: about half `None`, lattice / random times, repeated minima, `f64::MAX`, `+inf`
+fn gen_script(r: &mut Rng) -> String {
+    let n = r.below(40) as usize;
+    let mut s = format!("{}", n);
+    let base = if r.bool() { r.range(0, 8) as f64 * 0.25 } else { r.uniform(0.0, 4.0) };
+    for _ in 0..n {
+        match r.below(8) {
+            0 | 1 | 2 | 3 => s.push_str(" 0"),
+            4 => s.push_str(&format!(" 1 {}", hx(base))),                       // ties at a common value
+            5 => s.push_str(&format!(" 1 {}", hx(base + r.range(-2, 6) as f64 * 0.25))),
+            6 => s.push_str(&format!(" 1 {}", hx(r.uniform(0.0, 8.0)))),
+            _ => s.push_str(&format!(" 1 {}", hx(*r.pick(&[f64::MAX, f64::INFINITY, 0.0, 1.0e300])))),
+        }
+    }
+    s
+}
 pub fn exec(func: &str, a: &mut Args) -> String {
     match func {
         "ray_ball" => {
@@ -401,6 +448,7 @@ pub fn exec(func: &str, a: &mut Args) -> String {
             }
         }
         "hfwalk" => hfwalk_exec(a),
+        "hfbest" => hfbest_exec(a),
         _ => "nofn".into(),
     }
 }
